@@ -305,6 +305,8 @@ class Exec:
             idx = len(proj) - 1 - proj[::-1].index("deref")
             base = self._get(path, local, proj[:idx])
             if not isinstance(base, Ref):
+                if idx == len(proj) - 1 and base is not None:
+                    return base     # `&*p` of a by-value stand-in for the pointee
                 raise Unsupported("reborrow of %r" % (base,))
             return Ref(base.local, base.proj + tuple(proj[idx + 1:]))
         return Ref(local, proj)
